@@ -861,7 +861,7 @@ Proof. repeat split; vm_compute; reflexivity. Qed.
 (* 4fcdee5: a source that delivers io.EOF together with the last bytes is a healthy source: every theorem
    about healthy sources covers it; the former witness now leaves Err() = nil *)
 Theorem eof_with_last_bytes_proof :
-  (forall d sched closer, positive_sched sched ->
+  (forall d sched closer, tame_sched sched ->
      healthy (SReader (mkR d sched true E_EOF 0 (len d))) d /\
      healthy (SSeeker (mkK d sched true E_EOF (len d) false closer)) d /\
      healthy (SReaderAt (mkA d [] true E_EOF (len d))) d) /\
@@ -885,14 +885,82 @@ Theorem mmap_empty_read_at_end_proof :
   write_all false [VU8 5; VBytes []] = [5].
 Proof. split; [exact H_mmap|]. split; vm_compute; reflexivity. Qed.
 
-(* still open: a source that once returns (0, nil) makes the read fail inside the data with
-   "could not read all bytes" (no panic any more) *)
-Theorem zero_length_read_refuted_proof :
+(* f857ad9: (0, nil) reads are retried.  A script whose runs of empty reads are shorter than 100 is a healthy
+   source; the former witnesses now return the values *)
+Theorem zero_length_reads_retried_proof :
+  tame_sched [1; 0] /\ tame_sched [0] /\ tame_sched (repeat 0 99 ++ [1] ++ repeat 0 99 ++ [2]) /\
   option_map snd (run any_backend (new_sys (SReader (mkR [1; 2; 3] [1; 0] false E_EOF 0 3))) [OU16; OErr; OPos]) =
-    Some [VInt 0; VInt E_SHORT; VInt 1] /\
+    Some [VInt 258; VInt 0; VInt 2] /\
   option_map snd (run any_backend (new_sys (SSeeker (mkK [1; 2; 3] [0] false E_EOF 3 false false))) [OU8; OErr; OPos]) =
-    Some [VInt 0; VInt E_SHORT; VInt 0].
-Proof. repeat split; vm_compute; reflexivity. Qed.
+    Some [VInt 1; VInt 0; VInt 1] /\
+  option_map snd (run any_backend (new_sys (SReader (mkR [1; 2; 3] (repeat 0 99 ++ [1] ++ repeat 0 99 ++ [2]) false E_EOF 0 3)))
+                    [OU24; OErr; OPos]) = Some [VInt 66051; VInt 0; VInt 3].
+Proof.
+  split; [vm_compute; repeat split|]. split; [vm_compute; repeat split|]. split; [vm_compute; repeat split|].
+  repeat split; vm_compute; reflexivity.
+Qed.
+
+(* the give-up case: the 100th consecutive empty read ends the request with io.ErrNoProgress; nothing is
+   delivered, the 100 script entries are consumed, the source keeps its data *)
+Lemma read_loop_gives_up : forall j fuel rem t ewl fe need empty acc,
+  rem <> [] -> 0 < need -> 0 <= empty -> empty + Z.of_nat j = MAX_EMPTY -> (1 <= j <= fuel)%nat ->
+  read_loop fuel rem (repeat 0 j ++ t) ewl fe need empty acc = mkRd acc rem t E_NOPROGRESS.
+Proof.
+  unfold MAX_EMPTY.
+  induction j as [|j IH]; intros fuel rem t ewl fe need empty acc Hrem Hn He Hsum Hj; [lia|].
+  destruct fuel as [|f]; [lia|]. cbn [read_loop repeat app].
+  replace (need <=? 0) with false by (symmetry; apply Z.leb_gt; lia).
+  destruct rem as [|x xs]; [contradiction|]. set (rem := x :: xs) in *.
+  assert (Hl : 1 <= len rem) by (unfold rem; rewrite len_cons; pose proof (len_nonneg xs); lia).
+  assert (Hsr : src_read rem (0 :: repeat 0 j ++ t) ewl fe need = mkRd [] rem (repeat 0 j ++ t) E_NIL).
+  { unfold rem at 1. cbn [src_read tl]. fold rem.
+    replace (Z.min (Z.min 0 need) (len rem)) with 0 by lia.
+    change (firstz 0 rem) with (@nil Z). change (skipz 0 rem) with rem.
+    replace (len rem =? 0) with false by (symmetry; apply Z.eqb_neq; lia). reflexivity. }
+  rewrite Hsr. cbn [rd_out rd_rem rd_sched rd_err].
+  change (E_NIL =? E_EOF) with false. cbn [andb]. change (E_NIL =? 0) with true. cbn [negb].
+  change (len (@nil Z)) with 0. change (0 <? 0) with false. cbv iota. rewrite app_nil_r.
+  unfold MAX_EMPTY.
+  destruct j as [|j'].
+  - replace (100 <=? empty + 1) with true by (symmetry; apply Z.leb_le; lia). reflexivity.
+  - replace (100 <=? empty + 1) with false by (symmetry; apply Z.leb_gt; lia).
+    apply IH; auto; lia.
+Qed.
+
+Theorem no_progress_gives_up_proof :
+  (forall rem sched ewl fe pos size bnil n, rem <> [] -> 0 < n ->
+     reader_bytes (mkR rem (repeat 0 100 ++ sched) ewl fe pos size) bnil n pos =
+       Some (mkR rem sched ewl fe pos size, mkBR [] false E_NOPROGRESS)) /\
+  (forall data sched ewl fe size closer bnil n off, 0 <= off < len data -> 0 < n ->
+     seeker_bytes (mkK data (repeat 0 100 ++ sched) ewl fe size false closer) bnil n off =
+       Some (mkK data sched ewl fe size false closer, mkBR [] false E_NOPROGRESS)) /\
+  (* 100 empty reads, then the data: the first request gives up, Err() keeps io.ErrNoProgress, the next
+     request is served *)
+  option_map snd (run any_backend (new_sys (SReader (mkR [1; 2] (repeat 0 100) false E_EOF 0 2)))
+                    [OU16; OErr; OPos; OU16; OErr; OPos]) =
+    Some [VInt 0; VInt E_NOPROGRESS; VInt 0; VInt 258; VInt E_NOPROGRESS; VInt 2] /\
+  (* 99 are tolerated *)
+  option_map snd (run any_backend (new_sys (SReader (mkR [1; 2] (repeat 0 99) false E_EOF 0 2))) [OU16; OErr; OPos]) =
+    Some [VInt 258; VInt 0; VInt 2].
+Proof.
+  split; [|split; [|split; vm_compute; reflexivity]].
+  - intros rem sched ewl fe pos size bnil n Hrem Hn. unfold reader_bytes. cbn [r_pos r_rem r_sched r_ewl r_fe r_size].
+    rewrite Z.eqb_refl. cbn [negb].
+    replace (n =? 0) with false by (symmetry; apply Z.eqb_neq; lia).
+    replace (n <? 0) with false by (symmetry; apply Z.ltb_ge; lia). rewrite andb_false_r.
+    rewrite (read_loop_gives_up 100 (loop_fuel n) rem sched ewl fe n 0 []); auto; try lia.
+    + cbn [rd_out rd_rem rd_sched rd_err]. change (len (@nil Z)) with 0. rewrite Z.add_0_r. reflexivity.
+    + unfold loop_fuel. lia.
+  - intros data sched ewl fe size closer bnil n off Hoff Hn. unfold seeker_bytes.
+    cbn [k_data k_sched k_ewl k_fe k_size k_closed k_closer].
+    replace (n =? 0) with false by (symmetry; apply Z.eqb_neq; lia).
+    replace (n <? 0) with false by (symmetry; apply Z.ltb_ge; lia). rewrite andb_false_r.
+    replace (off <? 0) with false by (symmetry; apply Z.ltb_ge; lia). cbn [orb].
+    rewrite (read_loop_gives_up 100 (loop_fuel n) (skipz off data) sched ewl fe n 0 []); auto; try lia.
+    + intros E. pose proof (len_skipz off data ltac:(lia)) as Hls. rewrite E in Hls.
+      change (len (@nil Z)) with 0 in Hls. lia.
+    + unfold loop_fuel. lia.
+Qed.
 
 (* ---- independence past the end ------------------------------------------------------------------------------- *)
 Definition sim2 (d : list Z) (st : sys bstate) (sb : sys (list Z)) : Prop :=
@@ -1041,6 +1109,26 @@ Proof.
   exists st', sb', outs, outsb. destruct S' as (_ & A & B & _). auto.
 Qed.
 
+(* the full clause: over every script whose runs of empty reads are shorter than 100 the sequential and the
+   seeking reader return what the in-memory backend returns, for every supported operation sequence *)
+Theorem empty_reads_tolerated_proof d sched ewl closer ops :
+  tame_sched sched ->
+  (Forall (allowed false) ops ->
+   exists st' sb' outs outsb,
+     run any_backend (new_sys (SReader (mkR d sched ewl E_EOF 0 (len d)))) ops = Some (st', outs) /\
+     run bytes_backend (new_sys d) ops = Some (sb', outsb) /\
+     Forall2 obs_eqv outs outsb /\ cur st' = cur sb' /\ oth st' = oth sb') /\
+  (Forall (allowed true) ops ->
+   exists st' sb' outs outsb,
+     run any_backend (new_sys (SSeeker (mkK d sched ewl E_EOF (len d) false closer))) ops = Some (st', outs) /\
+     run bytes_backend (new_sys d) ops = Some (sb', outsb) /\
+     Forall2 obs_eqv outs outsb /\ cur st' = cur sb' /\ oth st' = oth sb').
+Proof.
+  intros Ht. split; intros Hal.
+  - apply backend_independence_past_end_proof; [apply H_reader; exact Ht|exact Hal].
+  - apply backend_independence_past_end_proof; [apply H_seeker; exact Ht|exact Hal].
+Qed.
+
 (* ---- the constructors build healthy sources --------------------------------------------------------------------- *)
 Theorem constructors_healthy_proof d sched :
   (forall ewl failing, construct CBytes d sched ewl failing = Some (SBytes d)) /\
@@ -1049,9 +1137,9 @@ Theorem constructors_healthy_proof d sched :
   (forall ewl failing, exists s, construct (CFile (len d)) d sched ewl failing = Some s /\ healthy s d) /\
   (forall n ewl, n < 0 -> construct (CPlain n) d sched ewl false = Some (SBytes d)) /\
   (forall n ewl, n < 0 -> construct (CReaderAt n) d sched ewl false = Some (SBytes d)) /\
-  (positive_sched sched -> forall ewl,
+  (tame_sched sched -> forall ewl,
      exists s, construct (CPlain (len d)) d sched ewl false = Some s /\ healthy s d) /\
-  (positive_sched sched -> forall n ewl, n = len d \/ n < 0 ->
+  (tame_sched sched -> forall n ewl, n = len d \/ n < 0 ->
      exists s, construct (CSeeker n) d sched ewl false = Some s /\ healthy s d) /\
   (forall ewl, exists s, construct (CReaderAt (len d)) d [] ewl false = Some s /\ healthy s d) /\
   healthy (SBytes d) d.
@@ -1059,7 +1147,7 @@ Proof.
   pose proof (len_nonneg d) as Hd.
   split; [reflexivity|]. split; [reflexivity|].
   split. { intros. eexists. split; [reflexivity|]. apply H_mmap. }
-  split. { intros. eexists. split; [reflexivity|]. apply (H_seeker d [] false true). constructor. }
+  split. { intros. eexists. split; [reflexivity|]. apply (H_seeker d [] false true). exact I. }
   split. { intros n ewl Hn. cbn [construct]. replace (n <? 0) with true by (symmetry; apply Z.ltb_lt; lia). reflexivity. }
   split. { intros n ewl Hn. cbn [construct]. replace (0 <? n) with false by (symmetry; apply Z.ltb_ge; lia).
            replace (n <? 0) with true by (symmetry; apply Z.ltb_lt; lia). reflexivity. }
@@ -1074,7 +1162,7 @@ Proof.
   intros ewl. cbn [construct]. destruct (Z.ltb_spec 0 (len d)) as [Hpos|Hz].
   - eexists. split; [reflexivity|]. apply H_readerat.
   - replace (len d <? 0) with false by (symmetry; apply Z.ltb_ge; lia).
-    eexists. split; [reflexivity|]. cbn [fe_of]. apply H_reader. constructor.
+    eexists. split; [reflexivity|]. cbn [fe_of]. apply H_reader. exact I.
 Qed.
 
 (* ---- the in-memory and mmap backends never panic, whatever the operations and arguments ----------------------- *)
@@ -1131,11 +1219,12 @@ Proof.
 Qed.
 
 (* ---- the read loop's fuel is never exhausted, whatever the source does ------------------------------------------ *)
-Lemma read_loop_fuel fuel : forall rem sched ewl fe need acc,
-  fe <> E_FUEL -> (Z.to_nat need < fuel)%nat ->
-  rd_err (read_loop fuel rem sched ewl fe need acc) <> E_FUEL.
+Lemma read_loop_fuel fuel : forall rem sched ewl fe need empty acc,
+  fe <> E_FUEL -> 0 <= empty < MAX_EMPTY -> (Z.to_nat (100 * need + 100 - empty) < fuel)%nat ->
+  rd_err (read_loop fuel rem sched ewl fe need empty acc) <> E_FUEL.
 Proof.
-  induction fuel as [|f IH]; intros rem sched ewl fe need acc Hfe Hf; [lia|].
+  unfold MAX_EMPTY.
+  induction fuel as [|f IH]; intros rem sched ewl fe need empty acc Hfe He Hf; [lia|].
   cbn [read_loop]. destruct (Z.leb_spec need 0) as [H0|H0]; [cbn [rd_err]; discriminate|].
   set (r := src_read rem sched ewl fe need).
   assert (Hr : rd_err r <> E_FUEL).
@@ -1143,8 +1232,10 @@ Proof.
     destruct ((len (skipz _ _) =? 0) && ewl); [exact Hfe|discriminate]. }
   destruct ((rd_err r =? E_EOF) && (need - len (rd_out r) =? 0)); [cbn [rd_err]; discriminate|].
   destruct (negb (rd_err r =? 0)); [cbn [rd_err]; exact Hr|].
-  destruct (Z.eqb_spec (len (rd_out r)) 0) as [Hz|Hz]; [cbn [rd_err]; discriminate|].
-  apply IH; [exact Hfe|]. pose proof (len_nonneg (rd_out r)). lia.
+  destruct (Z.ltb_spec 0 (len (rd_out r))) as [Hz|Hz].
+  - apply IH; [exact Hfe|lia|lia].
+  - unfold MAX_EMPTY. destruct (Z.leb_spec 100 (empty + 1)); [cbn [rd_err]; discriminate|].
+    apply IH; [exact Hfe|lia|lia].
 Qed.
 
 (* ---- non-vacuity --------------------------------------------------------------------------------------- *)
@@ -1157,7 +1248,7 @@ Example roundtrip_hypotheses_met :
   Forall valid_value ex_values /\
   write_all true (ex_values ++ [VU8 9]) = [1; 2; 254; 255; 255; 7; 8; 5; 0; 0; 0; 0; 0; 0; 128; 128; 9].
 Proof.
-  split; [apply H_reader; repeat constructor|]. split; [|reflexivity].
+  split; [apply H_reader; apply positive_tame; repeat constructor|]. split; [|reflexivity].
   unfold ex_values. repeat constructor; cbn [valid_value]; lia.
 Qed.
 
@@ -1169,7 +1260,7 @@ Example independence_hypotheses_met :
   option_map snd (run bytes_backend (new_sys d) ops) =
     Some [VInt 258; VNone; VIntErr 3 0; VRead 2 1 [4; 5]; VRead 2 0 [2; 3]; VNone; VInt 3; VInt 2].
 Proof.
-  cbn zeta. split; [apply H_seeker; repeat constructor|]. split.
+  cbn zeta. split; [apply H_seeker; apply positive_tame; repeat constructor|]. split.
   - repeat constructor; cbn [allowed]; auto; lia.
   - split; [vm_compute; repeat split|reflexivity].
 Qed.
@@ -1189,7 +1280,7 @@ Example eof_hypotheses_met :
 Proof.
   eexists. split.
   - eapply (R_step [1; 2; 3] (new_sys (SReader (mkR [1; 2; 3] [1] true E_EOF 0 3))) OU16).
-    + apply R_init. apply (H_reader [1; 2; 3] [1] true). repeat constructor.
+    + apply R_init. apply (H_reader [1; 2; 3] [1] true). apply positive_tame. repeat constructor.
     + exact I.
     + vm_compute. reflexivity.
   - vm_compute. repeat split; auto; discriminate.
@@ -1202,7 +1293,7 @@ Example sticky_hypotheses_met :
 Proof.
   eexists. split.
   - eapply (R_step [9] (new_sys (SSeeker (mkK [9] [] false E_EOF 1 false true))) OI8).
-    + apply R_init. apply (H_seeker [9] [] false true). constructor.
+    + apply R_init. apply (H_seeker [9] [] false true). exact I.
     + exact I.
     + vm_compute. reflexivity.
   - split; [vm_compute; discriminate|vm_compute; reflexivity].
@@ -1214,3 +1305,18 @@ Example mmap_identical_example :
                     [OU16; OSeek 0 0; ORead 9; OU8; OReadBytes 0; OReadBytes (-1); OU8]) =
     Some [VInt 258; VIntErr 0 0; VRead 3 E_EOF [1; 2; 3]; VInt 0; VData true []; VData true []; VInt 0].
 Proof. split; [repeat constructor|vm_compute; reflexivity]. Qed.
+
+(* scripts with empty reads: the hypotheses of empty_reads_tolerated are met by a script with runs of 99 *)
+Example empty_reads_hypotheses_met :
+  let sched := repeat 0 99 ++ [1] ++ repeat 0 99 ++ [3] ++ [0; 0; 2] in
+  let ops := [OU16; OReadBytes 2; OU8; OU8; OErr; OPos] in
+  tame_sched sched /\ ~ positive_sched sched /\ Forall (allowed false) ops /\
+  option_map snd (run any_backend (new_sys (SReader (mkR [1; 2; 3; 4; 5] sched true E_EOF 0 5))) ops) =
+    Some [VInt 258; VData false [3; 4]; VInt 5; VInt 0; VInt E_EOF; VInt 5] /\
+  option_map snd (run bytes_backend (new_sys [1; 2; 3; 4; 5]) ops) =
+    Some [VInt 258; VData false [3; 4]; VInt 5; VInt 0; VInt E_EOF; VInt 5].
+Proof.
+  cbn zeta. split; [vm_compute; repeat split|]. split.
+  - intros H. inversion H as [|c t Hc _]; subst. lia.
+  - split; [repeat constructor; cbn; lia|]. split; vm_compute; reflexivity.
+Qed.
